@@ -118,3 +118,12 @@ Definition timestamp_of_date (y mo d h mi s : Z) : N :=
   timestamp_of_secs (epoch_secs y mo d h mi s).
 Definition c17_date (y mo d h mi s : N) : N :=
   timestamp_of_date (Z.of_N y) (Z.of_N mo) (Z.of_N d) (Z.of_N h) (Z.of_N mi) (Z.of_N s).
+
+(* ---- Serial from a point in time (base/serial.rs From<jiff::Timestamp>,
+   From<chrono::DateTime>): seconds since the epoch (signed, 64 bit), `as u32`.
+   Times before 1970 and after 2106 are legal inputs of both conversions. *)
+Definition serial_of_time (secs : Z) : N :=
+  if from_time_cast_wraps then Z.to_N (secs mod 4294967296)%Z
+  else Z.to_N (Z.max 0 (Z.min secs 4294967295)).
+Definition c17_fromtime (negative : bool) (magnitude : N) : N :=
+  serial_of_time (if negative then (- Z.of_N magnitude)%Z else Z.of_N magnitude).
